@@ -29,6 +29,7 @@ class Harness:
         self.stubs = []
         self.unwind = None
         self.contract_stubs = 'contract' in opts  # uses nondeterministic contract stubs
+        self.unwindset = [x for x in str(opts.get('unwindset', '')).split(',') if x and x is not True]   # e.g. memcmp.0:85
 
     def __repr__(self):
         return f'<H {self.full} {self.tier}>'
@@ -121,9 +122,12 @@ def run_group(hs, target, jobs, mem_gb, log_path, extra=()):
     tmo = max(h.timeout for h in hs)
     cmd = ['cargo', 'kani', '--target-dir', target, '-Z', 'stubbing', '-Z', 'unstable-options',
            '--harness-timeout', f'{tmo}s', '--export-json', jpath, '--output-format', 'terse',
-           '-j', str(jobs), '--exact'] + list(extra)
+           '-j', str(jobs), '--exact', '--no-assertion-reach-checks'] + list(extra)
     for h in hs:
         cmd += ['--harness', h.full]
+    uw = sorted({u for h in hs for u in h.unwindset})
+    if uw:
+        cmd += ['--cbmc-args', '--unwindset', ','.join(uw)]
     sh = f'ulimit -s unlimited 2>/dev/null; ulimit -v {mem_gb * 1024 * 1024}; exec ' + ' '.join(cmd)
     t0 = time.time()
     waves = (len(hs) + jobs - 1) // jobs
@@ -181,7 +185,9 @@ def playback_test_code(h, target, log_path):
     """re-run a failed harness with concrete playback and return the generated unit test source"""
     cmd = ['cargo', 'kani', '--target-dir', target, '-Z', 'stubbing', '-Z', 'concrete-playback',
            '--concrete-playback=print', '--output-format', 'terse', '--exact', '--harness', h.full,
-           '-Z', 'unstable-options', '--harness-timeout', f'{h.timeout}s']
+           '-Z', 'unstable-options', '--harness-timeout', f'{h.timeout}s', '--no-assertion-reach-checks']
+    if h.unwindset:
+        cmd += ['--cbmc-args', '--unwindset', ','.join(h.unwindset)]
     p = subprocess.run(cmd, cwd=KDIR, env=kani_env(), capture_output=True, text=True, timeout=h.timeout + 900)
     out = p.stdout + p.stderr
     open(log_path, 'w').write(out)
